@@ -66,4 +66,12 @@ CLAIMED["C16"] = {
     "text": "Kernel-checked: for every history, the DIMACS instance announces a variable count covering clauses and assumptions (dimacs_wellformed); a model / UNSAT is reported only when the reply carries the status line, empty output is undecided, the model has one entry per declared variable (reply_faithful, model_covers_declared); in the abstract pipe model drain-then-wait returns for every output size and capacity whereas wait-then-drain never returns once the output exceeds the capacity (pipe_no_deadlock). Tied to the code: captured instances from all static solvers and from random histories checked by a recogniser and compared with the Lean rendering; generated well/ill-formed replies through a scripted solver compared with the Lean parser and the expected class; timed runs with 1 KiB - 1 MiB of output.",
     "note": "PARTIAL by nature: OS pipes, process spawning and scheduling are represented by the abstract Pipe model; which policy the code follows is observed by the timed runs (a hang is reported as a violation). Trusted: Lean kernel, harness, fake-solver script.",
     "technique": "Lean 4 proofs (DIMACS invariant, reply parser, pipe model) + captured exchanges and timed runs"}
+CLAIMED["C08"] = {
+    "text": "Every status and certificate of the six dynamic solver types (the recompute wrapper over all seven static solvers; reservation factors 1, 1.5, 2, 3.7) on random valid histories with interleaved and repeated queries is judged against the framework as it stands with the judge proved exact in Lean (judge_is_exact = checkAnswer_iff); certificate members must be the current framework's own arguments.",
+    "note": "PARTIAL: the Lean model of the dynamic encoders (variable table, selectors, event buffer, answer caches) and its invariant dyn_inv are in progress; at present the property is decided per run by the exact judge on generated histories (frameworks <= 7 live arguments), which found and led to the repair of three defects of the dynamic preferred solver. Trusted: Lean kernel, harness (shadow framework), CaDiCaL.",
+    "technique": "differential conformance on update histories judged by a Lean-proved oracle; Lean model of the encoders in progress"}
+CLAIMED["C09"] = {
+    "text": "As C08 with 15% redundant or invalid updates injected at any position: the result of every update call (ok / error from the call itself) is compared with the expected one and every later answer is judged against the framework without the rejected or redundant operation, by the judge proved exact in Lean.",
+    "note": "PARTIAL: same as C08 (model of the buffered encoders in progress). Trusted: Lean kernel, harness, CaDiCaL.",
+    "technique": "differential conformance on histories with redundant/invalid updates judged by a Lean-proved oracle"}
 NOT_APPLICABLE = {}
